@@ -5,6 +5,7 @@ package main
 
 import (
 	"fmt"
+	"regexp"
 	"strings"
 )
 
@@ -28,11 +29,19 @@ func (g *Gen) sp() string {
 // osp: optional whitespace
 func (g *Gen) osp() string { return g.pick("", "", "", " ", "  ", "\n") }
 
+var reEndsHexEscape = regexp.MustCompile(`\\[0-9a-fA-F]{1,6}$`)
+
 func (g *Gen) join(parts []string) string {
 	var b strings.Builder
 	for i, p := range parts {
 		if i > 0 {
-			b.WriteString(g.sp())
+			sep := g.sp()
+			// N20: a comment directly after a hex escape, then white space: the minifier writes one
+			// space, which the escape swallows
+			if !g.known && sep[0] == '/' && reEndsHexEscape.MatchString(parts[i-1]) {
+				sep = " "
+			}
+			b.WriteString(sep)
 		}
 		b.WriteString(p)
 	}
@@ -454,7 +463,9 @@ func (g *Gen) vBgRepeat() string {
 	if g.chance(1, 4) {
 		return g.randCase(g.pick("repeat-x", "repeat-y"))
 	}
-	k := func() string { return g.randCase(g.pick("repeat", "repeat", "no-repeat", "no-repeat", "space", "round")) }
+	k := func() string {
+		return g.randCase(g.pick("repeat", "repeat", "no-repeat", "no-repeat", "space", "round"))
+	}
 	if g.r.Bool() {
 		return k()
 	}
@@ -751,7 +762,9 @@ func (g *Gen) vFont() string {
 	pre := g.subset(0,
 		func() string { return g.randCase(g.pick("italic", "oblique", "normal")) },
 		func() string { return g.randCase(g.pick("small-caps", "normal")) },
-		func() string { return g.pick(g.randCase("bold"), g.randCase("normal"), "400", "700", "bolder", "lighter", "100", "900", "550") },
+		func() string {
+			return g.pick(g.randCase("bold"), g.randCase("normal"), "400", "700", "bolder", "lighter", "100", "900", "550")
+		},
 		func() string { return g.randCase(g.pick("condensed", "expanded", "normal", "ultra-condensed")) },
 	)
 	s := g.join(pre)
@@ -775,7 +788,9 @@ func (g *Gen) vTransition() string {
 		return g.join(g.subset(1,
 			func() string { return g.pick("all", "opacity", "transform", "none", "Fade-In", "slide") },
 			g.time,
-			func() string { return g.pick("ease", "linear", "ease-in-out", "cubic-bezier(0.25, 0.10, .25, 1.0)", "steps(4, end)", "cubic-bezier(.4,0,.2,1)") },
+			func() string {
+				return g.pick("ease", "linear", "ease-in-out", "cubic-bezier(0.25, 0.10, .25, 1.0)", "steps(4, end)", "cubic-bezier(.4,0,.2,1)")
+			},
 		))
 	})
 }
@@ -1009,6 +1024,18 @@ func (g *Gen) vUnknown() string {
 	parts := make([]string, 0, n)
 	for i := 0; i < n; i++ {
 		parts = append(parts, g.component())
+	}
+	if !g.known {
+		for i := range parts {
+			// N10: "/" followed by "*" opens a comment once the white space between them is dropped
+			if i > 0 && strings.HasSuffix(parts[i-1], "/") && strings.HasPrefix(parts[i], "*") {
+				parts[i] = "x"
+			}
+			// a hex escape owns the white space character that follows it: give it one of its own
+			if reEndsHexEscape.MatchString(parts[i]) {
+				parts[i] += " "
+			}
+		}
 	}
 	// separators must not start or end the value
 	for len(parts) > 0 && (parts[0] == "/" || parts[0] == ",") {
